@@ -78,8 +78,13 @@ type Fabric struct {
 	Intercept func(req *http.Request, x *Exchange) (resp *http.Response, err error, handled bool)
 	// OnHeaders is called (in the handler's thread) when response headers reach the client.
 	OnHeaders func(x *Exchange)
+	// Lost counts the exchanges whose response was lost to an armed LoseResponses fault.
+	Lost int
 
-	log []*Exchange
+	log       []*Exchange
+	loseN     int
+	loseMatch func(*http.Request) bool
+	loseErr   error
 }
 
 // NewFabric creates a fabric with one handler registered for host.
@@ -292,6 +297,59 @@ func (f *Fabric) RoundTrip(req *http.Request) (*http.Response, error) {
 		}
 		body = b
 	}
+	// an armed connection fault (see LoseResponses)
+	for f.loseN > 0 && (f.loseMatch == nil || f.loseMatch(req)) {
+		f.loseN--
+		f.Lost++
+		hadBody := req.Body != nil && req.Body != http.NoBody
+		resp, err := f.exchange(req, body)
+		if err == nil {
+			// the server handled the request and wrote its answer to a connection that is gone
+			io.Copy(io.Discard, resp.Body)
+			resp.Body.Close()
+		}
+		if replayable(req, hadBody) {
+			continue // net/http sends a replayable request again on a fresh connection, silently
+		}
+		return nil, f.loseErr
+	}
+	return f.exchange(req, body)
+}
+
+// LoseResponses arms a fault of net/http's keep-alive connection pool: the next n exchanges for
+// which match returns true (nil: all) are received and handled by the server, but the re-used
+// connection they travelled on dies before the first byte of the response reaches the client.
+// net/http's Transport then behaves as it does in real life: a request it considers replayable -
+// no body or a body it can rewind (GetBody), and an idempotent method or an Idempotency-Key /
+// X-Idempotency-Key header - is silently sent again on a fresh connection; for every other request
+// (an ordinary POST) RoundTrip fails with err, which http.Client wraps in a *url.Error.
+//
+//go:norace
+func (f *Fabric) LoseResponses(n int, match func(*http.Request) bool, err error) {
+	f.loseN, f.loseMatch, f.loseErr = n, match, err
+}
+
+// replayable is net/http's (*Request).isReplayable.
+func replayable(r *http.Request, hadBody bool) bool {
+	if !hadBody || r.GetBody != nil {
+		switch r.Method {
+		case "GET", "HEAD", "OPTIONS", "TRACE", "":
+			return true
+		}
+		if _, ok := r.Header["Idempotency-Key"]; ok {
+			return true
+		}
+		if _, ok := r.Header["X-Idempotency-Key"]; ok {
+			return true
+		}
+	}
+	return false
+}
+
+// exchange carries one request to its handler.
+//
+//go:norace
+func (f *Fabric) exchange(req *http.Request, body []byte) (*http.Response, error) {
 	x := &Exchange{
 		Seq: len(f.log), Method: req.Method, URL: req.URL.String(), Path: req.URL.Path, Query: req.URL.RawQuery,
 		Host: req.URL.Host, ReqHeader: req.Header.Clone(), ReqBody: body, ClientTID: vsched.ThreadID(),
